@@ -192,6 +192,10 @@ pub struct Params {
     pub family: Option<String>,
     /// `<group>+`: the single site of the group's state may be repeated (several occupied sites)
     pub multi: bool,
+    /// `<group>%k`: the `num_rotations` field of every site (oracle requests only)
+    pub rotations: Option<u64>,
+    /// `<group>!name`: the list of symmetry operations of every site replaced by `gen::custom_ops(name)`
+    pub custom: Option<String>,
 }
 
 fn inject<T: Serialize + serde::de::DeserializeOwned>(st: &T, p: &Params) -> Option<T> {
@@ -205,6 +209,16 @@ fn inject<T: Serialize + serde::de::DeserializeOwned>(st: &T, p: &Params) -> Opt
         v["wallpaper"]["family"] = json!(f);
     }
     let sites = v["occupied_sites"].as_array_mut()?;
+    for s in sites.iter_mut() {
+        if let Some(k) = p.rotations {
+            s["wyckoff"]["num_rotations"] = json!(k);
+        }
+        if let Some(name) = &p.custom {
+            // nalgebra matrices serialise column-major
+            let ops: Vec<Value> = crate::gen::custom_ops(name).iter().map(|m| json!([m[0], m[3], m[6], m[1], m[4], m[7], m[2], m[5], m[8]])).collect();
+            s["wyckoff"]["symmetries"] = Value::Array(ops);
+        }
+    }
     if sites.len() == 1 && p.sites.len() >= 2 && p.multi {
         // several occupied sites of the same Wyckoff position (`initialise(shape, wallpaper, &[site, …])` / JSON)
         let first = sites[0].clone();
@@ -247,7 +261,7 @@ pub fn parse_state0(k: &mut Toks) -> Option<Result<AnyState, String>> {
         Err(e) => return Some(Err(e)),
     };
     let gname = k.s()?;
-    let gname = gname.split(|c| c == '@' || c == '+').next().unwrap_or(gname);
+    let gname = gname.split(|c| c == '@' || c == '+' || c == '%' || c == '!').next().unwrap_or(gname);
     let g: WallpaperGroups = match gname.parse() {
         Ok(g) => g,
         Err(_) => return Some(Err("group".to_string())),
@@ -266,16 +280,35 @@ pub fn parse_state0(k: &mut Toks) -> Option<Result<AnyState, String>> {
 
 /// `<kind> <shape> <group> init | <L R A> <nsites> (x y angle)..`
 pub fn parse_state(k: &mut Toks) -> Option<Result<AnyState, String>> {
-    // the group token may carry modifiers the model driver does not know (used by oracle requests only):
-    // `p1@Hexagonal` (crystal family of label and cell), `p1+` (several occupied sites)
-    let gtok = k.t.iter().skip(k.i).find(|t| crate::gen::GROUPS.iter().any(|g| t.split(|c| c == '@' || c == '+').next() == Some(*g))).copied().unwrap_or("");
-    let family = gtok.split('@').nth(1).map(|f| f.trim_end_matches('+').to_string());
+    // the group token may carry modifiers: `p1@Hexagonal` (crystal family of label and cell), `p1+` (several
+    // occupied sites) — known to the model driver too — and, for oracle requests only, `p2%2` (the sites'
+    // `num_rotations` field), `p1!p4` (the sites' list of symmetry operations replaced by a custom one)
+    let is_mark = |c: char| c == '@' || c == '+' || c == '%' || c == '!';
+    let gtok = k.t.iter().skip(k.i).find(|t| crate::gen::GROUPS.iter().any(|g| t.split(is_mark).next() == Some(*g))).copied().unwrap_or("");
+    let mut family = None;
+    let mut multi = false;
+    let mut rotations = None;
+    let mut custom = None;
+    {
+        let mut rest = &gtok[gtok.find(is_mark).unwrap_or(gtok.len())..];
+        while let Some(m) = rest.chars().next() {
+            let body_end = rest[1..].find(is_mark).map(|i| i + 1).unwrap_or(rest.len());
+            let body = &rest[1..body_end];
+            match m {
+                '@' => family = Some(body.to_string()),
+                '+' => multi = true,
+                '%' => rotations = body.parse::<u64>().ok(),
+                '!' => custom = Some(body.to_string()),
+                _ => {}
+            }
+            rest = &rest[body_end..];
+        }
+    }
     if let Some(f) = &family {
         if !crate::gen::FAMILIES.contains(&f.as_str()) {
             return Some(Err("family".to_string()));
         }
     }
-    let multi = gtok.ends_with('+');
     let st = match parse_state0(k)? {
         Ok(s) => s,
         Err(e) => return Some(Err(e)),
@@ -290,7 +323,7 @@ pub fn parse_state(k: &mut Toks) -> Option<Result<AnyState, String>> {
     for _ in 0..n {
         sites.push((k.f()?, k.f()?, k.f()?));
     }
-    let p = Params { cell, sites, family, multi };
+    let p = Params { cell, sites, family, multi, rotations, custom };
     Some(match &st {
         AnyState::HardLine(s) => inject(s, &p).map(AnyState::HardLine),
         AnyState::HardMol(s) => inject(s, &p).map(AnyState::HardMol),
